@@ -173,6 +173,7 @@ func (p *Parser) ParseReader(r io.Reader, args ...any) (data Node, err error) {
 
 			return
 		}
+		p.noff -= len(buf) - skip
 		skip = 0
 		if eof {
 			break
@@ -550,7 +551,7 @@ func (p *Parser) parseBuffer(buf []byte, last bool) error {
 	}
 	if last {
 		if 0 < len(p.starts) || len(p.mode) == 256 { // valid finishing maps are one byte longer
-			return p.newError(off, "incomplete JSON")
+			return p.newError(len(buf), "incomplete JSON")
 		}
 		if p.mode[256] == 'n' {
 			p.add(p.num.AsNode())
